@@ -1090,6 +1090,41 @@ fn chain_unit(tier: Tier, shard: usize, nshards: usize, ctx: &mut Ctx) {
             chain_case(ctx, &cur, k);
         }
     });
+    // family 3: long thinned lists (17..64 points: event arrays beyond the small-slice regime of
+    // the library's sorts).  Cell (x, y) of a G x G grid is kept iff (a*x + b*y + c) mod m is in a
+    // residue set S — every (G, m, a, b, c, S): diagonals with matches exactly k apart and the
+    // ones in between missing, full and empty anti-diagonals, stripes, checkerboards.
+    let mut counter3 = 0usize;
+    for g in tier.pick(vec![6u32, 8], vec![6u32, 7, 8, 9]) {
+        for m in 2u32..=5 {
+            for a in 0..m {
+                for b in 0..m {
+                    for c in 0..m {
+                        for set in 1u32..(1u32 << m) - 1 {
+                            counter3 += 1;
+                            if counter3 % nshards != shard || ctx.res.capped {
+                                continue;
+                            }
+                            cur.clear();
+                            for x in 0..g {
+                                for y in 0..g {
+                                    if set >> ((a * x + b * y + c) % m) & 1 == 1 {
+                                        cur.push((x, y));
+                                    }
+                                }
+                            }
+                            if cur.len() < 17 {
+                                continue;
+                            }
+                            for &k in &ks {
+                                chain_case(ctx, &cur, k);
+                            }
+                        }
+                    }
+                }
+            }
+        }
+    }
 }
 
 // ------------------------------------------------------------------------------------------------
@@ -1133,7 +1168,7 @@ impl Prop for C19Prop {
                       "wide_q": "q in {qmax/2, qmax-1, qmax}, qmax = 64/ceil(log2|A|); |A|=1: q in {4,64,65,200}; family: 5 periodic bases, <=2 substitutions at 5 positions by 4 symbols; rolling texts of q+3 symbols"},
             "sparse": {"pairs": SPARSE_ALPHAS.iter().map(|(a, q, t)| format!("{}^<={}", show(a), tier.pick(*q, *t))).collect::<Vec<_>>(),
                        "k": tier.pick("1,2,3", "1,2,3,4"), "sdpkpp (match_score, gap_open, gap_extend)": "(1,0,0),(1,-1,-1),(1,-5,-1),(2,-3,-2)", "allowed_mismatches": "0,1"},
-            "chain": {"all_subsets_of_grid": format!("{}x{}", g1, g1 + tier.pick(0, 1)), "all_lists_up_to_points": maxpts, "on_grid": format!("{}x{} (lists inside the first grid excluded)", g2, g2), "k": "1,2,3"}
+            "chain": {"all_subsets_of_grid": format!("{}x{}", g1, g1 + tier.pick(0, 1)), "all_lists_up_to_points": maxpts, "on_grid": format!("{}x{} (lists inside the first grid excluded)", g2, g2), "k": "1,2,3", "thinned_lists": tier.pick("G in {6,8}: cells with (a*x+b*y+c) mod m in S, every m in 2..=5, a,b,c < m, non-trivial S; lists of >= 17 points", "G in {6,7,8,9}, same")}
         })
     }
     fn units(&self, _tier: Tier) -> Vec<String> {
